@@ -302,6 +302,14 @@ func (ex *Exec) model(g *G, fr *Frame, fn *ssa.Function, name string, args []Val
 		return true, ts.Bool(strings.HasSuffix(ex.cstr(args[0], name), ex.cstr(args[1], name)))
 	case "strings.Contains":
 		return true, ts.Bool(strings.Contains(ex.cstr(args[0], name), ex.cstr(args[1], name)))
+	case "strings.ContainsAny":
+		return true, ts.Bool(strings.ContainsAny(ex.cstr(args[0], name), ex.cstr(args[1], name)))
+	case "strings.ContainsRune":
+		return true, ts.Bool(strings.ContainsRune(ex.cstr(args[0], name), rune(ex.concInt(args[1].(*Term), "rune"))))
+	case "strings.IndexAny":
+		return true, ts.BV(uint64(int64(strings.IndexAny(ex.cstr(args[0], name), ex.cstr(args[1], name)))), 64)
+	case "strings.IndexRune":
+		return true, ts.BV(uint64(int64(strings.IndexRune(ex.cstr(args[0], name), rune(ex.concInt(args[1].(*Term), "rune"))))), 64)
 	case "strings.Replace":
 		n := ex.concInt(args[3].(*Term), "Replace n")
 		return true, ex.concStr(strings.Replace(ex.cstr(args[0], name), ex.cstr(args[1], name), ex.cstr(args[2], name), n))
